@@ -309,7 +309,8 @@ CLAIMED = {
              "raises due while the builder refuses the frame (full congestion window) then advertised / advertised+1 probes; a "
              "failing-input search (first the inputs on which model and implementation disagreed, moved to streams that cannot have "
              "been discarded so that the wire oracle must judge every frame; then thorough directed generators, unstrided pairs, "
-             "biased PRNG; 60 s) runs when only the correspondence breaks; final-size probes at the delivered offset; wire oracle against the limits put on the wire (the oracle itself decides from the "
+             "biased PRNG; 60 s) runs when only the correspondence breaks; final-size probes at the delivered offset; floods of NEW_CONNECTION_ID (fresh / duplicate / stale below Retire Prior To) / "
+             "PATH_CHALLENGE / CRYPTO without a transmit in between with the bounds checked after every datagram; wire oracle against the limits put on the wire (the oracle itself decides from the "
              "peer's frames when a receive half is complete).",
         note="Trusted: Lean kernel; standard axioms; harness/impl_flow.py; stream_enforced_eq_advertised assumes the fixes "
              "1778857 and 51656a6 are in place (FixedQ); a final size below data already received is accepted by the code "
